@@ -273,6 +273,12 @@ func (h *Heap) set(st *State, name, sort, term, ref string) {
 	}
 }
 
+// setQuiet updates a component without recording a write (the value is provably unchanged).
+func (h *Heap) setQuiet(st *State, name, sort, term string) {
+	h.declare(name, sort)
+	st.heap[name] = h.ctx.define(name, sort, term)
+}
+
 func (h *Heap) pushLog() { h.log = append(h.log, map[string]map[string]bool{}) }
 func (h *Heap) popLog() map[string]map[string]bool {
 	l := h.log[len(h.log)-1]
@@ -335,7 +341,7 @@ func (h *Heap) merge(sts []*State) *State {
 			}
 			continue
 		}
-		out.heap[k] = h.ctx.define(k, srt, groupedIte(sts, terms))
+		out.heap[k] = h.ctx.define(k, srt, h.mergeArrays(sts, terms))
 	}
 	// alloc counter
 	allocs := make([]string, len(sts))
@@ -344,6 +350,44 @@ func (h *Heap) merge(sts []*State) *State {
 	}
 	out.alloc = h.ctx.define("alloc", sRef, groupedIte(sts, allocs))
 	return out
+}
+
+// mergeArrays joins versions of a heap component. When all of them are store chains over
+// one root, the result is again a store chain over that root whose stored values are
+// chosen by the path guards (valid whatever aliasing holds between the references, since
+// each value is read from the respective version at that reference). Arrays thus stay
+// store chains across joins and reads keep resolving syntactically.
+func (h *Heap) mergeArrays(sts []*State, terms []string) string {
+	c := h.ctx
+	root := ""
+	var union []string
+	seen := map[string]bool{}
+	for i, t := range terms {
+		r, refs := c.chainOf(t)
+		if i == 0 {
+			root = r
+		} else if r != root {
+			return groupedIte(sts, terms)
+		}
+		for _, x := range refs {
+			if !seen[x] {
+				seen[x] = true
+				union = append(union, x)
+			}
+		}
+	}
+	if len(union) == 0 || len(union) > 24 {
+		return groupedIte(sts, terms)
+	}
+	res := root
+	for _, u := range union {
+		vals := make([]string, len(terms))
+		for i, t := range terms {
+			vals[i] = c.selectOf(t, u)
+		}
+		res = sto(res, u, groupedIte(sts, vals))
+	}
+	return res
 }
 
 // groupedIte selects terms[i] under sts[i].guard, grouping identical terms.
